@@ -156,6 +156,7 @@ type stepInfo struct {
 	errMsg   string
 	backend  *fakemysql.Entry // the backend's record of the query (successful queries)
 	rejected string           // a SET statement the backend rejected during this step
+	syncSet  string           // the last SET statement the backend received during this step
 }
 
 func snapEq(a, b fakemysql.Snapshot) bool {
@@ -311,6 +312,9 @@ func (w *world) step(e Ev) stepInfo {
 	}
 	for _, le := range w.r.fake.LogSince(cursor) {
 		le := le
+		if le.Kind == "set" {
+			si.syncSet = le.SQL
+		}
 		if le.Kind == "set" && le.Rejected != "" {
 			si.rejected = le.Rejected
 		}
@@ -422,6 +426,9 @@ func replay(cfg Config, hist []Ev) (res xstate.Result, trace []string) {
 					// mechanism: did the proxy believe something wrong about this connection
 					// before the query / does its session object still hold the client's settings
 					"stale_belief": fmt.Sprint(stale[si.backend.Conn]),
+					// the SET statement the proxy sent for this very query: none, an ordinary one,
+					// or one that assigns the same variable twice (v = x, ..., v = DEFAULT)
+					"sync_set": syncSetClass(si.syncSet),
 					"session_lost": w.sessionLost(e.S),
 					// every differing component is a setting the proxy's session object lost
 					"explained_by_session_lost": fmt.Sprint(explainedByLost(comps, dirs, w.sessionLost(e.S))),
@@ -608,6 +615,49 @@ func overloaded(trace []string) bool {
 		}
 	}
 	return false
+}
+
+// syncSetClass classifies the proxy's sync statement of a step.
+func syncSetClass(sql string) string {
+	if sql == "" {
+		return "none"
+	}
+	body := strings.TrimSpace(sql)
+	if len(body) >= 4 && strings.EqualFold(body[:4], "set ") {
+		body = body[4:]
+	}
+	seen := map[string]bool{}
+	inq := byte(0)
+	start := 0
+	var parts []string
+	for i := 0; i < len(body); i++ {
+		c := body[i]
+		switch {
+		case inq != 0:
+			if c == inq {
+				inq = 0
+			}
+		case c == '\'' || c == '"' || c == '`':
+			inq = c
+		case c == ',':
+			parts = append(parts, body[start:i])
+			start = i + 1
+		}
+	}
+	parts = append(parts, body[start:])
+	for _, p := range parts {
+		name := strings.ToLower(strings.TrimSpace(p))
+		if i := strings.IndexByte(name, '='); i >= 0 {
+			name = strings.TrimSpace(name[:i])
+		} else if f := strings.Fields(name); len(f) > 0 {
+			name = f[0] // NAMES
+		}
+		if seen[name] {
+			return "sent_assigns_a_variable_twice"
+		}
+		seen[name] = true
+	}
+	return "sent"
 }
 
 func uniq(xs []string) []string {
